@@ -236,6 +236,28 @@ def oracle_api(ctx, n):
             if got != exp and margin > 1e-6:
                 common.add_violation(ctx, 'find_atoms_around differs from the brute-force filter',
                                      dict(case, centre=atoms[c]['name'], dist=dist, only_part=op), exp, got)
+        # the search returns atoms of the structure as it is now: after an atom was deleted (the first of the list, the last, or any) it is
+        # no longer a neighbour of anything
+        if len(real) > 2 and rng.random() < 0.5:
+            victim = rng.choice([real[0], real[0], real[-1], rng.choice(real)])
+            ia = list(ia)          # the objects by their index in the file, the live list shrinks
+            vname = atoms[victim]['name']
+            if rng.random() < 0.5:
+                ia[victim].delete()
+            else:
+                del shx.atoms[ia[victim].atomid]
+            for _k in range(2):
+                c = rng.choice([k_ for k_ in real if k_ != victim])
+                dist = rng.choice([1.6, 2.0, 2.5, 3.5])
+                op = atoms[victim]['part']
+                got = sorted(x.name for x in ia[c].find_atoms_around(dist=dist, only_part=op))
+                exp = sorted(atoms[k]['name'] for k in range(len(atoms)) if k != c and k != victim and not atoms[k]['q'] and atoms[k]['part'] == op
+                             and mdist(atoms[c]['xyz'], atoms[k]['xyz']) < dist)
+                margin = min([abs(mdist(atoms[c]['xyz'], atoms[k]['xyz']) - dist) for k in range(len(atoms)) if k != c] or [1])
+                ev += 1
+                if got != exp and margin > 1e-6:
+                    common.add_violation(ctx, 'find_atoms_around after an atom was deleted differs from the brute-force filter over the remaining atoms',
+                                         dict(case, centre=atoms[c]['name'], dist=dist, only_part=op, deleted=vname), exp, got)
         prev = shx
     return ev
 
